@@ -701,6 +701,9 @@ class Props(Family):
             b['props']['props'][0]['scaling'] = [1.5, 1.5, 1.5]
             b['props']['props'][0]['scaling_is_float'] = True
             out.append(('float_scaling', b))
+        c = copy.deepcopy(w)              # model names that differ only in letter case are different dictionary entries
+        c['props']['props'][1]['model'] = c['props']['props'][0]['model'].upper()
+        out.append(('model_case_variants', c))
         return out
 
 
@@ -1087,6 +1090,11 @@ def enum_ents(depth: int):
         w['ents'][1]['outs'] = [['OnX', None, 't', 'A', None, '', 0.0, -1, comma], ['OnX', None, 't', 'A', None, '', 0.0, -1, comma],
                                 ['OnY', 'i', 'u', 'B', 'j', 'p q', 0.5, 1, comma]]
         yield {'fam': 'ents', 'layout': lay, 'world': w, 'tag': 'output_list'}
+        # both separator forms inside one lump (either order), written per output (no forced separator)
+        w = fam.base(lay, 2)
+        w['ents'][1]['outs'] = [['OnA', None, 't', 'A', None, 'p', 0.0, -1, comma], ['OnB', None, 'u', 'B', None, '', 1.0, 1, not comma]]
+        w['ents'][2]['outs'] = [['OnC', None, 'v', 'C', None, 'q r', 0.5, -1, not comma], ['OnD', None, 'w', 'D', None, '', 0.0, 2, comma]]
+        yield {'fam': 'ents', 'layout': lay, 'world': w, 'tag': 'mixed_separators', 'sep': None}
     w = fam.base(lay, 1)
     w['ents'][1]['outs'] = [['OnX', None, 't', 'A', None, '', 0.0, -1, True], ['OnX', None, 't', 'B', None, '', 0.0, -1, False]]
     yield {'fam': 'ents', 'layout': lay, 'world': w, 'tag': 'output_mixed_separators'}
